@@ -1379,30 +1379,60 @@ def argsFor (r : Option (Dict RestrArg)) (d : Option (Dict DefArg)) (h : Option 
   { name := s.1.name, start := s.1.start, end_ := s.2,
     restr := restrFor r s.1.name, deform := deformFor d s.1.name, ignoreH := ignoreFor h s.1.name }
 
-theorem alignLoop_eq (cs : List (Species P × Mol P)) (hnd : (cs.map (·.1.name)).Nodup)
-    (r : Option (Dict RestrArg)) (d : Option (Dict DefArg)) (h : Option (Dict IgnArg))
-    (l : List (Species P × Mol P)) (hl : ∀ s ∈ l, s ∈ cs) :
-    alignLoop cs (parsedDeform d cs) (parsedIgnore h cs) (parsedRestr r l) =
-      runAligns (l.map (argsFor r d h)) := by
+/-- the loop looks every option up by the species' own name: whatever the order of the keys it
+    walks, and whichever subset of the complete species they name -/
+theorem alignLoop_eq_gen (cs : List (Species P × Mol P)) (hnd : (cs.map (·.1.name)).Nodup)
+    (d : Option (Dict DefArg)) (h : Option (Dict IgnArg))
+    (l : List ((Species P × Mol P) × Option (List Pair))) (hl : ∀ x ∈ l, x.1 ∈ cs) :
+    alignLoop cs (parsedDeform d cs) (parsedIgnore h cs) (l.map fun x => (x.1.1.name, x.2)) =
+      runAligns (l.map fun x =>
+        { name := x.1.1.name, start := x.1.1.start, end_ := x.1.2, restr := x.2,
+          deform := deformFor d x.1.1.name, ignoreH := ignoreFor h x.1.1.name }) := by
   induction l with
   | nil => rfl
-  | cons s rest ih =>
-    have hs := hl s (by simp)
-    have hr := ih (fun x hx => hl x (by simp [hx]))
-    simp only [parsedRestr, List.map_cons, alignLoop, runAligns]
+  | cons x rest ih =>
+    obtain ⟨s, v⟩ := x
+    have hs : s ∈ cs := hl (s, v) (by simp)
+    have hr := ih (fun y hy => hl y (by simp [hy]))
+    simp only [List.map_cons, alignLoop, runAligns]
     have e1 : (parsedDeform d cs).lookup s.1.name = some (deformFor d s.1.name) :=
       lookup_map_name cs _ hnd s hs
     have e2 : (parsedIgnore h cs).lookup s.1.name = some (ignoreFor h s.1.name) :=
       lookup_map_name cs _ hnd s hs
     have e3 := find_name cs hnd s hs
-    simp only [e1, e2, e3, argsFor]
-    cases alignPrep s.1.start s.2 (restrFor r s.1.name) (deformFor d s.1.name) (ignoreFor h s.1.name) with
+    simp only [e1, e2, e3]
+    cases alignPrep s.1.start s.2 v (deformFor d s.1.name) (ignoreFor h s.1.name) with
     | error err => rfl
     | ok out =>
       simp only []
-      have := hr
-      simp only [parsedRestr] at this
-      rw [this]
+      rw [hr]
+
+theorem alignLoop_eq (cs : List (Species P × Mol P)) (hnd : (cs.map (·.1.name)).Nodup)
+    (r : Option (Dict RestrArg)) (d : Option (Dict DefArg)) (h : Option (Dict IgnArg))
+    (l : List (Species P × Mol P)) (hl : ∀ s ∈ l, s ∈ cs) :
+    alignLoop cs (parsedDeform d cs) (parsedIgnore h cs) (parsedRestr r l) =
+      runAligns (l.map (argsFor r d h)) := by
+  have := alignLoop_eq_gen cs hnd d h (l.map fun s => (s, restrFor r s.1.name))
+    (by intro x hx; obtain ⟨s, hs, rfl⟩ := List.mem_map.mp hx; exact hl s hs)
+  have e : (argsFor r d h : Species P × Mol P → AlignArgs P) = fun s =>
+      { name := s.1.name, start := s.1.start, end_ := s.2, restr := restrFor r s.1.name,
+        deform := deformFor d s.1.name, ignoreH := ignoreFor h s.1.name } := rfl
+  rw [e]
+  simpa [parsedRestr, List.map_map, Function.comp_def] using this
+
+/-- a key of the walked dictionary that is not a complete species: `KeyError` at that key, after
+    the alignments of the keys before it -/
+theorem alignLoop_unknown (cs : List (Species P × Mol P)) (D : Dict (Option (List Int))) (H : Dict Bool)
+    (name : PStr) (v : Option (List Pair)) (rest : Dict (Option (List Pair)))
+    (hn : ∀ s ∈ cs, s.1.name ≠ name) :
+    alignLoop cs D H ((name, v) :: rest) = ⟨[], some .keyError⟩ := by
+  have hf : cs.find? (fun s => s.1.name == name) = none := by
+    rw [List.find?_eq_none]
+    intro s hs
+    simpa using hn s hs
+  unfold alignLoop
+  rw [hf]
+  cases D.lookup name <;> cases H.lookup name <;> rfl
 
 /-- well-formed options: every complete species is aligned, in order, with exactly its own values -/
 theorem managerAlign_ok (sys : List (Species P)) (hnd : (sys.map (·.name)).Nodup)
@@ -1458,5 +1488,65 @@ theorem IgnDictOk_of_parse {sys : List (Species P)} {d : Option (Dict IgnArg)}
   obtain ⟨e, he⟩ := parseIgnore_err _ _ hn
   rw [he] at h
   cases h
+
+/-- `parse_restrictions=False`: the species listed in the given dictionary — in the given order,
+    any subset, any permutation — are each aligned with their own restraints, deformation types and
+    hydrogen flag -/
+theorem managerAlignPreparsed_ok (sys : List (Species P)) (hnd : (sys.map (·.name)).Nodup)
+    (l : List ((Species P × Mol P) × Option (List Pair))) (hl : ∀ x ∈ l, x.1 ∈ complete sys)
+    (d : Option (Dict DefArg)) (h : Option (Dict IgnArg))
+    (hd : DefDictOk sys d) (hh : IgnDictOk sys h) :
+    managerAlignPreparsed sys (l.map fun x => (x.1.1.name, x.2)) d h =
+      runAligns (l.map fun x =>
+        { name := x.1.1.name, start := x.1.1.start, end_ := x.1.2, restr := x.2,
+          deform := deformFor d x.1.1.name, ignoreH := ignoreFor h x.1.1.name }) := by
+  unfold managerAlignPreparsed
+  rw [parseDeformations_ok _ _ hd, parseIgnore_ok _ _ hh]
+  simp only []
+  have hnd' : ((complete sys).map (·.1.name)).Nodup :=
+    List.Nodup.sublist (completeNames_sublist sys) hnd
+  exact alignLoop_eq_gen _ hnd' d h l hl
+
+/-- every dictionary whose keys are complete species has that form -/
+theorem preparsed_form (sys : List (Species P)) (r : Dict (Option (List Pair)))
+    (hk : ∀ kv ∈ r, kv.1 ∈ completeNames sys) :
+    ∃ l : List ((Species P × Mol P) × Option (List Pair)),
+      (∀ x ∈ l, x.1 ∈ complete sys) ∧ r = l.map fun x => (x.1.1.name, x.2) := by
+  induction r with
+  | nil => exact ⟨[], by simp, rfl⟩
+  | cons kv rest ih =>
+    obtain ⟨k, v⟩ := kv
+    obtain ⟨l, hl, hr⟩ := ih (fun x hx => hk x (by simp [hx]))
+    have hkm : k ∈ completeNames sys := hk (k, v) (by simp)
+    obtain ⟨s, hs, hsn⟩ := List.mem_map.mp hkm
+    refine ⟨(s, v) :: l, ?_, ?_⟩
+    · intro x hx
+      rcases List.mem_cons.mp hx with rfl | hx
+      · exact hs
+      · exact hl x hx
+    · simp [hsn, hr]
+
+/-- malformed deformation / hydrogen options are still refused before the first alignment -/
+theorem managerAlignPreparsed_rejects (sys : List (Species P)) (r : Dict (Option (List Pair)))
+    (d : Option (Dict DefArg)) (h : Option (Dict IgnArg))
+    (hbad : ¬ (DefDictOk sys d ∧ IgnDictOk sys h)) :
+    ∃ err, managerAlignPreparsed sys r d h = ⟨[], some err⟩ := by
+  unfold managerAlignPreparsed
+  by_cases hd : DefDictOk sys d
+  · rw [parseDeformations_ok _ _ hd]
+    have hh : ¬ IgnDictOk sys h := fun hh => hbad ⟨hd, hh⟩
+    obtain ⟨err, he⟩ := parseIgnore_err _ _ hh
+    exact ⟨err, by simp [he]⟩
+  · obtain ⟨err, he⟩ := parseDeformations_err _ _ hd
+    exact ⟨err, by simp [he]⟩
+
+/-- parsing first and passing the result with `parse_restrictions=False` is the same as letting
+    the call parse -/
+theorem managerAlign_eq_preparsed (sys : List (Species P)) (r : Option (Dict RestrArg))
+    (d : Option (Dict DefArg)) (h : Option (Dict IgnArg)) (x : Dict (Option (List Pair)))
+    (hp : parseRestrictions sys r = .ok x) :
+    managerAlign sys r d h = managerAlignPreparsed sys x d h := by
+  unfold managerAlign managerAlignPreparsed
+  rw [hp]
 
 end Restr
